@@ -4,16 +4,88 @@
    any name / order / body kind, Start, Run, Shutdown / ShutdownAndWait); a schedule is any list of
    (thread, choice); worker goroutines are spawned by the model. *)
 From Coq Require Import ZArith List Bool.
-From Verif.C20_Daemon Require Import Model Base Inv Frame Skel Proofs.
+From Verif.C20_Daemon Require Import Model Base Inv Frame Skel Proofs Full.
 Import ListNotations.
 Open Scope Z_scope.
 
 (* The full statement of C20 on histories (Model.hist_ok: every cancel of a worker that has not returned comes
    after the return of every started worker of a higher order; stopOnce.Do(shutdown) returns only after every
    started worker has returned; nothing starts and no registration succeeds after that; a name whose worker has
-   not returned is refused).  NOT proved in this round: see notes/C20.md ("partial"). *)
+   not returned is refused).  Proved for ALL pools and ALL schedules by induction over the schedule with the
+   invariant Inv.ginv (C20_invariant_step). *)
 Definition C20_full_statement : Prop :=
   forall pool sch, Forall entry pool -> hist_ok (log (run fixed sch (init pool))) = true.
+Theorem C20_full : C20_full_statement.
+Proof. exact hist_ok_reachable. Qed.
+
+(* The invariant (wait-group counter = number of live workers per order, live worker owns its registry entry,
+   registry sorted / unique, walker invariant, log links, per-thread assertions) is preserved by every step. *)
+Theorem C20_invariant_step : forall s t ch s', ginv s -> step fixed s t ch = Some s' -> ginv s'.
+Proof. exact ginv_step. Qed.
+Theorem C20_invariant_reachable : forall pool sch, Forall entry pool -> ginv (run fixed sch (init pool)).
+Proof. exact ginv_reachable. Qed.
+
+(* (a) Cancel order, for ALL pools and ALL schedules: whenever the context of a worker w that has not returned is
+   cancelled, every worker that was started with a strictly higher shutdown order has already returned.
+   (Cancelling a worker that already returned is not counted: stopWorkers cancels those without waiting.)
+   Equal orders are cancelled without waiting in between: C20_equal_orders_no_wait / C20_cancel_step_enabled. *)
+Theorem C20_order : forall pool sch, Forall entry pool ->
+  forall newer w old, log (run fixed sch (init pool)) = newer ++ EvCancel w :: old -> live_in old w = true ->
+  forall v c n o, In (EvStart v c n o) old -> order_in old w < o -> returned_in old v = true.
+Proof. exact order. Qed.
+(* ... the same on states: when the walker stands before w's ctxCancel, no live worker has a higher order. *)
+Theorem C20_order_state : forall pool sch, Forall entry pool ->
+  let s := run fixed sch (init pool) in
+  forall t d w r pv, thr s t (SD6 d (w :: r) pv) -> forall v, live s v -> ord (heap s) v <= ord (heap s) w.
+Proof. exact order_state. Qed.
+
+(* (b) stopOnce.Do(shutdown) - ShutdownAndWait returns there - returns only after every started worker returned. *)
+Theorem C20_wait_all : forall pool sch, Forall entry pool ->
+  forall newer t old, log (run fixed sch (init pool)) = newer ++ EvShutRet t :: old ->
+  forall v c n o, In (EvStart v c n o) old -> returned_in old v = true.
+Proof. exact wait_all. Qed.
+Theorem C20_wait_all_state : forall pool sch, Forall entry pool ->
+  let s := run fixed sch (init pool) in
+  once s = ODone -> forall v, w_started (gw s v) = true -> w_returned (gw s v) = true.
+Proof. exact wait_all_state. Qed.
+
+(* (c) A name that is still running is refused: if BackgroundWorker call t for name n returns nil, every started
+   worker of name n that was registered by another call has returned. *)
+Theorem C20_running_name_refused : forall pool sch, Forall entry pool ->
+  forall newer t old n, log (run fixed sch (init pool)) = newer ++ EvBW t ROk :: old -> name_of_call old t = Some n ->
+  forall v c o, In (EvStart v c n o) old -> c <> t -> returned_in old v = true.
+Proof. exact running_name_refused. Qed.
+Theorem C20_running_name_state : forall pool sch, Forall entry pool ->
+  let s := run fixed sch (init pool) in
+  forall t n o k, thr s t (BW5 n o k) -> forall v, live s v -> w_name (gw s v) <> n.
+Proof. exact running_name_state. Qed.
+
+(* Non-vacuity of (a), (b), (c): one concrete schedule (name 0 registered with order 5, returns early, is
+   re-registered with order 7; name 1 with order 1; the walker cancels 7, blocks until it returned, cancels 1,
+   blocks again, returns) in which the premises hold and workers are actually cancelled. *)
+Example C20_order_nonvacuous :
+  let old := [EvReturn 2; EvCancel 2; EvBW 4 ROk; EvStart 2 4 0 7; EvBegin 4 0; EvReturn 0; EvStart 1 1 1 1;
+              EvStart 0 0 0 5; EvBW 1 ROk; EvBegin 1 1; EvBW 0 ROk; EvBegin 0 0] in
+  ex_log = [EvShutRet 3; EvReturn 1] ++ EvCancel 1 :: old /\ live_in old 1 = true /\
+  In (EvStart 2 4 0%nat 7) old /\ order_in old 1 < 7 /\ returned_in old 2 = true.
+Proof. exact ex_order. Qed.
+Example C20_wait_all_nonvacuous :
+  let old := [EvReturn 1; EvCancel 1; EvReturn 2; EvCancel 2; EvBW 4 ROk; EvStart 2 4 0 7; EvBegin 4 0; EvReturn 0;
+              EvStart 1 1 1 1; EvStart 0 0 0 5; EvBW 1 ROk; EvBegin 1 1; EvBW 0 ROk; EvBegin 0 0] in
+  ex_log = [] ++ EvShutRet 3 :: old /\ In (EvStart 1 1 1%nat 1) old /\ In (EvStart 2 4 0%nat 7) old /\ In (EvCancel 1) old.
+Proof. exact ex_wait_all. Qed.
+Example C20_running_name_nonvacuous :
+  let old := [EvStart 2 4 0 7; EvBegin 4 0; EvReturn 0; EvStart 1 1 1 1; EvStart 0 0 0 5; EvBW 1 ROk; EvBegin 1 1;
+              EvBW 0 ROk; EvBegin 0 0] in
+  ex_log = [EvShutRet 3; EvReturn 1; EvCancel 1; EvReturn 2; EvCancel 2] ++ EvBW 4 ROk :: old /\
+  name_of_call old 4 = Some 0%nat /\ In (EvStart 0 0 0%nat 5) old /\ 0%nat <> 4%nat /\ returned_in old 0 = true.
+Proof. exact ex_running_name. Qed.
+Example C20_running_name_is_refused :
+  let s := run fixed (rep 5 0 ++ rep 5 1 ++ rep 7 2 ++ rep 6 4) (init ex_pool) in
+  log s = [EvBW 4 RStillRunning; EvBegin 4 0; EvStart 1 1 1 1; EvStart 0 0 0 5; EvBW 1 ROk; EvBegin 1 1; EvBW 0 ROk; EvBegin 0 0].
+Proof. exact ex_refused. Qed.
+Example C20_example_pool_ok : Forall entry ex_pool.
+Proof. exact ex_entry. Qed.
 
 (* Proved for ALL pools and ALL schedules (clause "after shutdown no worker can be added or started"):
    in every history no worker starts and no BackgroundWorker call returns nil after some
@@ -89,6 +161,15 @@ Example C20_shutdown_completes :
   once s = ODone /\ Forall entry d20a_pool.
 Proof. exact shutdown_completes_example. Qed.
 
+Print Assumptions C20_full.
+Print Assumptions C20_invariant_step.
+Print Assumptions C20_invariant_reachable.
+Print Assumptions C20_order.
+Print Assumptions C20_order_state.
+Print Assumptions C20_wait_all.
+Print Assumptions C20_wait_all_state.
+Print Assumptions C20_running_name_refused.
+Print Assumptions C20_running_name_state.
 Print Assumptions C20_after_shutdown.
 Print Assumptions C20_after_shutdown_state.
 Print Assumptions C20_refused_when_stopped.
